@@ -14,6 +14,7 @@ import (
 	"runtime"
 	"runtime/debug"
 	"runtime/pprof"
+	"strconv"
 	"strings"
 	"sync"
 	"sync/atomic"
@@ -633,7 +634,12 @@ func TestCheck(t *testing.T) {
 
 // memory guard: sampled every 250 ms; above memSoftCap of heap in use + not yet returned to the OS, every explorer
 // and harness B stop expanding and the run finishes with exhaustive:false instead of being killed.
-const memSoftCap = 6 << 30
+var memSoftCap = func() uint64 {
+	if v, err := strconv.Atoi(os.Getenv("C20_MEMCAP_MB")); err == nil && v > 0 {
+		return uint64(v) << 20 // test hook for the guard itself
+	}
+	return 6 << 30
+}()
 
 var (
 	memHigh atomic.Bool
